@@ -9,4 +9,4 @@ Definition model_trip (tb : conv_table) (utb : unconv_table) (S : schema) (i : h
   | Err _ => false
   end.
 Definition rcase_ok (S : schema) (c : rcase) : bool :=
-  match c with RCase tb utb i ev et => Bool.eqb (valid_b tb utb S i) ev && Bool.eqb (model_trip tb utb S i) et end.
+  match c with RCase tb utb i ev et => Bool.eqb (valid_b hval N.eqb (tconv tb) (tunconv utb) S i) ev && Bool.eqb (model_trip tb utb S i) et end.
